@@ -38,3 +38,13 @@ pub fn sym_b() -> String { String::new() }
 #[derive(TS)] pub struct E3 { pub a: i32 }
 #[derive(TS)] #[ts(export_to = "sub/file.ts")] pub struct E4 { pub a: i32 }
 #[derive(TS)] #[ts(export_to = sym_a(), rename = sym_b())] pub struct E5<T> { pub a: T }
+#[derive(TS)] pub struct G4<T, const N: usize> { pub a: [T; N], pub b: T }
+#[derive(TS)] #[ts(optional_fields)] pub struct G13<T: TS> { pub b: Option<T>, pub c: i32, pub d: Option<Vec<T>> }
+#[derive(TS)] pub struct G14<T, C = Vec<T>> { pub a: T, pub b: C }
+#[derive(TS)] pub struct G15<A, B = A, C = Option<B>> { pub a: A, pub b: B, pub c: C }
+#[derive(TS)] pub enum En1<T> { A { v: T } }
+#[derive(TS)] pub enum En2<T> { A(T), B { w: T } }
+#[derive(TS)] pub struct PF1<T> { pub id: bool, #[ts(flatten)] pub e: En1<T>, #[ts(flatten)] pub s: Inner<T> }
+#[derive(TS)] pub struct PF2<T> { #[ts(flatten)] pub e: En2<T>, #[ts(flatten)] pub s: Inner<T> }
+#[derive(TS)] pub struct PF3<T> { pub id: bool, #[ts(flatten)] pub s: Inner<T>, #[ts(flatten)] pub e: En1<T> }
+#[derive(TS)] pub struct PF4<T> { #[ts(inline)] pub e: En1<T>, #[ts(inline)] pub s: Inner<T>, pub n: En2<T> }
